@@ -483,11 +483,46 @@ def _validation(db, chk, m):
     chk.ob(rule, "critical_path validates the graph first and raises when validation fails, before the longest-path computation", ok, m.loc(f), found=[ast.unparse(g.test) for g in guard],
            accepted="if not self._validate_graph(): raise ...  (top level, before nx.dag_longest_path)")
     v = m.func("CPGraph._validate_graph")
-    rets = [n for n in walk_no_nested(v) if isinstance(n, ast.Return)]
-    falses = [r for r in rets if isinstance(r.value, ast.Constant) and r.value.value is False]
-    txt = ast.unparse(v)
-    chk.ob(rule, "_validate_graph rejects negative weights, same-stream sync edges and cycles", len(falses) >= 3 and "is_directed_acyclic_graph" in txt and "negative_weights" in txt and "sync_on_same_stream" in txt,
-           m.loc(v), found=len(falses), accepted=">= 3 rejecting returns (negative weights, same-stream sync, cycles)")
+    # decided by abstract runs of _validate_graph on one-edge graphs: the verdict it returns for each kind of defect
+    ref = f"{CP}:CPGraph._validate_graph"
+    chk.analysed_add("functions", ref)
+
+    def verdict(w, ty, streams, strict, acyclic):
+        def hook(I, name, pos, kw, node):
+            if name.endswith("critical_path_strict_negative_weight_check"):
+                return strict
+            if name.endswith("is_directed_acyclic_graph"):
+                return acyclic
+            if name.endswith("_get_node_name"):
+                return "name"
+            if name.endswith("simple_cycles") or name.endswith("find_cycle"):
+                return []
+            return NotImplemented
+        I = Interp(db, call_hook=hook)
+
+        def args(I):
+            e = Obj("edge", attrs={"weight": w, "type": ("enum", "CPEdgeType", ty), "begin": 0, "end": 1})
+            edges = {to_term(PyTuple([0, 1])): {"object": e, "weight": w, "type": ("enum", "CPEdgeType", ty)}}
+            nl = [Obj("n0", attrs={"ev_idx": 10, "idx": 0, "is_start": False, "is_blocking": False}), Obj("n1", attrs={"ev_idx": 11, "idx": 1, "is_start": True, "is_blocking": False})]
+            tdf = Obj("trace_df", attrs={"stream": Obj("stream", attrs={"loc": {10: streams[0], 11: streams[1]}})})
+            return {"self": Obj("self", cls=(m, "CPGraph"), attrs={"edges": edges, "node_list": nl, "trace_df": tdf})}
+        try:
+            runs = [r for r in I.explore(ref, args) if r.raised is None]
+        except AnalysisError:
+            return None
+        return runs[0].ret if len(runs) == 1 and not runs[0].path and isinstance(runs[0].ret, bool) else None
+    cases = (("a sound edge", (5, "DEPENDENCY", (7, 8), True, True), True),
+             ("an edge weighing -5 (strict check)", (-5, "DEPENDENCY", (7, 8), True, True), False),
+             ("a tolerated weight of -1 (default option)", (-1, "DEPENDENCY", (7, 8), False, True), True),
+             ("a synchronisation edge between kernels of ONE stream", (5, "SYNC_DEPENDENCY", (7, 7), True, True), False),
+             ("a synchronisation edge between two streams", (5, "SYNC_DEPENDENCY", (7, 8), True, True), True),
+             ("a synchronisation edge between host events (stream -1)", (5, "SYNC_DEPENDENCY", (-1, -1), True, True), True),
+             ("a cyclic graph", (5, "DEPENDENCY", (7, 8), True, False), False))
+    got = {what: verdict(*a) for what, a, _ in cases}
+    bad = {what: got[what] for what, _, want in cases if got[what] is not None and got[what] != want}
+    chk.ob(rule, "_validate_graph rejects negative weights, same-stream sync edges and cycles, and accepts a sound graph (decided on one-edge graphs)",
+           None if any(g is None for g in got.values()) and not bad else not bad, m.loc(v), found=bad or {k: g for k, g in got.items()},
+           accepted={what: want for what, _, want in cases}, why="critical_path computes a longest path only on a graph this method accepts: a cycle or a negative weight makes the maximum meaningless")
     chk.note("C08: the non-strict branch of _validate_graph tests weight <= -1 before weight < -1, so the second test is dead unless the strict option is set (noted, no alarm)")
 
 
